@@ -199,6 +199,7 @@ class Spec:
         st.resv = set()     # client role: promised streams whose response HEADERS have not arrived yet
         st.npush = 0
         st.badack = False
+        st.badincr = False
         st.stuck = {}       # sid -> kind of the action after which the stream first had nothing of its own outstanding and a window <= 0
         if self.zero:
             for lab in ("iws:0", "rxack"):
@@ -216,7 +217,7 @@ class Spec:
         return fingerprint(st.h.conn, st.Ac, st.acked_iws, tuple(st.pending), tuple(sorted(st.As.items())),
                            tuple(sorted(st.out.items())), tuple(sorted(st.credit.items())), st.auto,
                            tuple(sorted(st.reset)), tuple(sorted(st.ended)), st.nstreams, st.dead,
-                           tuple(sorted(st.stuck.items())), tuple(sorted(st.resv)), st.npush, st.badack)
+                           tuple(sorted(st.stuck.items())), tuple(sorted(st.resv)), st.npush, st.badack, st.badincr)
 
     def actions(self, st):
         if st.dead:
@@ -246,6 +247,11 @@ class Spec:
                     acts.append("ack:%d:half" % sid)
                 if st.out[sid] > 2000:
                     acts.append("ack:%d:2000" % sid)      # more than the 1024-byte threshold, far less than half a window
+        if not st.badincr:
+            # a manual increment that would take a window past 2^31-1 is refused - and leaves the window manager as it was
+            acts.append("incrbad:0")
+            if st.As:
+                acts.append("incrbad:%d" % min(st.As))
         if any(v > 0 for v in st.out.values()) and not st.badack:
             # everything outstanding acknowledged on a stream id that was never used: refused - and nothing is credited
             acts.append("ackbad:101")
@@ -405,6 +411,18 @@ class Spec:
             if not sent:
                 return Step("data-not-possible", viols, prune=True)
             out = parts[0]
+        elif parts[0] == "incrbad":
+            st.badincr = True
+            sid = int(parts[1])
+            cur = st.As[sid] if sid else st.Ac
+            inc = 2 ** 31 - cur          # one more than the window has room for
+            if not (1 <= inc <= 2 ** 31 - 1):
+                return Step("incrbad-not-expressible", viols, prune=True)
+            o = h.api("increment_flow_control_window", inc, stream_id=(sid or None))
+            if o.kind == "ok" or o.raw:
+                bad("overflowing-increment-accepted", "increment_flow_control_window(%d, %s) on a window of %d -> %s" % (inc, sid or None, cur, o.brief()))
+                st.dead = True
+                return Step("incrbad-accepted", viols, prune=True)
         elif parts[0] == "ackbad":
             st.badack = True
             n = sum(v for v in st.out.values() if v > 0)
